@@ -298,6 +298,8 @@ structure WireSchema where
   hookOnAllDicts : Bool      -- the hook is installed as `object_hook` (fires on every dict)
   headerFormat : String
   headerArgs : List String
+  urnNoSpace : Bool          -- `BoboDevice.__init__` raises when `' ' in urn`
+  keyNoSpace : Bool          -- … when `' ' in id_key`
 deriving DecidableEq, Repr
 
 def wireSchema : WireSchema where
@@ -308,6 +310,8 @@ def wireSchema : WireSchema where
   hookOnAllDicts := true
   headerFormat := "{} {} {} {} {}"
   headerArgs := ["mydev.urn", "mydev.id_key", "msg_type", "msg_flags", "msg_str"]
+  urnNoSpace := true
+  keyNoSpace := true
 
 /-- the checks `schemas_wf` decides on the generated tables. -/
 def Schema.wf (σ : Schema) : Bool :=
